@@ -769,6 +769,23 @@ func shrinkCandidates(prog *ast.Statements) []string {
 // ---------------------------------------------------------------------------------------------------
 // corpus: minimised past failures and the candidate disagreements of the design (run first)
 var corpus = []string{
+	// round 11: closures of IDENTICAL text made by one maker, each capturing a different function value / constant-named
+	// parameter / container, called with the SAME argument one after the other (a remembered result of the first must not
+	// answer for the second: what a closure captured is part of what it computes)
+	`func mk(g){ func(x){ g(x) } }; a=mk(func(x){x+1}); b=mk(func(x){x*10}); println(a(3)); println(b(3)); println(a(3))`,
+	`func mk(g){ func(x){ g(x) } }; [mk(func(x){x+1})(3), mk(func(x){x*10})(3), mk(func(x){x-1})(3)]`,
+	`func mkc(N){ func(x){ x+N } }; c=mkc(1); d=mkc(2); println(c(3)); println(d(3)); [c(3), d(3)]`,
+	`func mkv(n){ func(x){ x+n } }; c=mkv(1); d=mkv(2); println(c(3)); println(d(3)); [c(3), d(3)]`,
+	`mk = g => x => g(x); a=mk(x=>x+1); b=mk(x=>x*10); [a(3), b(3), a(3), b(3)]`,
+	`func mk(F){ func(x){ F(x)+F(x) } }; [mk(func(x){x+1})(3), mk(func(x){x*10})(3)]`,
+	`func mk(g){ func(){ func(x){ g(x) } } }; a=mk(func(x){x+1})(); b=mk(func(x){x*10})(); [a(3), b(3)]`,
+	`func mk(gs){ func(x){ gs[0](x) } }; [mk([func(x){x+1}])(3), mk([func(x){x*10}])(3)]`,
+	`func mk(ARR){ func(i){ ARR[i] } }; [mk([1,2])(0), mk([5,6])(0), mk([7,8,9,10,11,12,13,14,15])(0)]`,
+	`func mk(M){ func(k){ M[k] } }; [mk({"a":1})("a"), mk({"a":2})("a")]`,
+	`func mk(g, N){ func(x){ g(x)+N } }; [mk(func(x){x+1}, 100)(3), mk(func(x){x+1}, 200)(3), mk(func(x){x*10}, 100)(3)]`,
+	`func ap(g, x){ g(x) }; func mk(g){ func(x){ ap(g, x) } }; [mk(func(x){x+1})(3), mk(func(x){x*10})(3)]`,
+	`func mk(g){ h = func(x){ g(x) }; h }; r=[]; for f = [func(x){x+1}, func(x){x*10}, func(x){-x}] { r = r + [mk(f)(3)] }; r`,
+	`func twice(f){ func(x){ f(f(x)) } }; [twice(func(x){x+1})(3), twice(func(x){x*10})(3), twice(twice(func(x){x+1}))(3)]`,
 	`s="a";func f(){print(s)};f();print(s)`,
 	`func mk(x,other){()=>if other==nil {x} else {other()+x}};a=mk(1,nil);b=mk(2,a);b()`,
 	`c=0;func f(){c=c+1;c};print(f());c`,
